@@ -222,13 +222,18 @@ fn remove_old_file(rs_file: &Path) -> io::Result<()> {
 fn needs_rebuild(lalrpop_file: &Path, rs_file: &Path) -> io::Result<bool> {
     match fs::File::open(rs_file) {
         Ok(rs_file) => {
-            let mut version_str = String::new();
-            let mut hash_str = String::new();
+            // Read the header as bytes: a header that is not valid UTF-8 was
+            // not written by us and simply means that we must rebuild.
+            let mut version_bytes = Vec::new();
+            let mut hash_bytes = Vec::new();
 
             let mut f = io::BufReader::new(rs_file);
 
-            f.read_line(&mut version_str)?;
-            f.read_line(&mut hash_str)?;
+            f.read_until(b'\n', &mut version_bytes)?;
+            f.read_until(b'\n', &mut hash_bytes)?;
+
+            let version_str = String::from_utf8_lossy(&version_bytes);
+            let hash_str = String::from_utf8_lossy(&hash_bytes);
 
             Ok(hash_str.trim() != hash_file(lalrpop_file)?
                 || version_str.trim() != LALRPOP_VERSION_HEADER)
